@@ -1,5 +1,5 @@
 (* C11 - proofs about the model in Pure/Collapse.v.  No axioms except the real-number ones (only in the *_R lemmas). *)
-From Coq Require Import List ZArith Bool Arith Lia Reals Lra.
+From Coq Require Import List ZArith Bool Arith Lia Reals Lra Permutation.
 From MV Require Import Common.Num Common.Order Common.NumR Pure.Collapse.
 Import ListNotations.
 Open Scope nat_scope.
@@ -708,37 +708,69 @@ Section ImposeFacts.
       + intros i Hn. rewrite K2 by (simpl in Hn; tauto). apply nth_set_nth_neq. simpl in Hn. intros ->. tauto.
   Qed.
 
-  (* list target of the right length (one value per kept index, in index order) *)
-  Theorem impose_at_list_exact idx ts (x : list E) d :
-    NoDup idx -> length ts = length (filter (fun i => Nat.ltb i (length x)) idx) ->
-    exists y, impose_at N idx (AtList ts) x = Ok y /\ length y = length x /\
-      (forall k, k < length ts -> nth (nth k (filter (fun i => Nat.ltb i (length x)) idx) 0) y d = nth k ts d) /\
-      (forall i, ~ In i idx -> nth i y d = nth i x d).
+  Lemma in_combine_nth {A B} (l : list A) (l' : list B) k d1 d2 :
+    k < length l -> k < length l' -> In (nth k l d1, nth k l' d2) (combine l l').
   Proof.
-    intros ND HL. unfold impose_at. rewrite HL, Nat.eqb_refl. eexists. split; [reflexivity|].
-    set (kept := filter (fun i => Nat.ltb i (length x)) idx) in *.
-    assert (NDk : NoDup kept) by (apply NoDup_filter; auto).
-    assert (Hfst : map fst (combine kept ts) = kept).
-    { clear -HL. revert ts HL. induction kept as [|a k IH]; intros [|t ts] H; simpl in *; try lia; auto. f_equal. apply IH. lia. }
-    destruct (fold_set_list (combine kept ts) x d) as [L [K1 K2]].
-    { rewrite Hfst; auto. }
-    { intros [p1 p2] Hp. apply in_combine_l in Hp. simpl. apply filter_In in Hp. destruct Hp as [_ Hp]. apply Nat.ltb_lt in Hp; auto. }
-    split; auto. split.
-    - intros k Hk.
-      assert (Hin : In (nth k kept 0, nth k ts d) (combine kept ts)).
-      { rewrite <- (combine_nth kept ts k 0 d) by lia. apply nth_In. rewrite combine_length. lia. }
-      apply (K1 _ Hin).
-    - intros i Hn. apply K2. rewrite Hfst. unfold kept. rewrite filter_In. tauto.
+    revert l' k. induction l as [|a l IH]; intros [|b l'] [|k]; simpl; intros H1 H2; try lia; auto.
+    right. apply IH; lia.
   Qed.
 
-  (* the error branch of the real code (numpy shape mismatch): a list target whose length is neither the number of kept
-     indices nor 1 is rejected -- this is what AbstractSolver.Collapse runs into with CollapseAt(target=list) *)
-  Theorem impose_at_list_mismatch idx ts (x : list E) :
-    length ts <> length (filter (fun i => Nat.ltb i (length x)) idx) -> length ts <> 1 ->
-    impose_at N idx (AtList ts) x = Err ErrValue.
+  (* list target (repaired impose_at): target k goes to index k of the index sequence, a target whose index is out of
+     range is dropped with it, surplus indices / targets are ignored (zip); everything else is untouched *)
+  Theorem impose_at_list_exact idx ts (x : list E) d :
+    NoDup idx ->
+    exists y, impose_at N idx (AtList ts) x = Ok y /\ length y = length x /\
+      (forall k, k < length idx -> k < length ts -> nth k idx 0 < length x -> nth (nth k idx 0) y d = nth k ts d) /\
+      (forall i, ~ In i (firstn (length ts) idx) -> nth i y d = nth i x d).
   Proof.
-    intros H1 H2. unfold impose_at. apply Nat.eqb_neq in H1. rewrite H1.
-    destruct ts as [|a [|b ts]]; simpl in *; auto; congruence.
+    intros ND. unfold impose_at. eexists. split; [reflexivity|].
+    set (kept := filter (fun p : nat * E => Nat.ltb (fst p) (length x)) (combine idx ts)).
+    assert (Hsub : forall p, In p kept -> In p (combine idx ts) /\ fst p < length x).
+    { intros p Hp. apply filter_In in Hp. destruct Hp as [A B]. apply Nat.ltb_lt in B. auto. }
+    assert (NDc : NoDup (map fst (combine idx ts))).
+    { clear -ND. revert ts. induction idx as [|a l IH]; intros [|t ts]; simpl; try constructor.
+      - inversion ND; subst. intros Hin. apply in_map_iff in Hin. destruct Hin as [[a' t'] [E1 Hin]]. simpl in E1. subst a'.
+        apply in_combine_l in Hin. auto.
+      - inversion ND; auto. }
+    assert (NDk : NoDup (map fst kept)).
+    { clear -NDc. unfold kept. induction (combine idx ts) as [|q l IH]; simpl; [constructor|].
+      inversion NDc; subst. destruct (Nat.ltb (fst q) (length x)); simpl; auto. constructor; auto.
+      intros Hin. apply H1. apply in_map_iff in Hin. destruct Hin as [q' [E1 Hq]]. apply filter_In in Hq.
+      apply in_map_iff. exists q'. tauto. }
+    destruct (fold_set_list kept x d NDk) as [L [K1 K2]].
+    { intros p Hp. apply Hsub; auto. }
+    split; auto. split.
+    - intros k Hk1 Hk2 Hr.
+      assert (Hin : In (nth k idx 0, nth k ts d) kept).
+      { unfold kept. apply filter_In. split.
+        - apply in_combine_nth; auto.
+        - simpl. apply Nat.ltb_lt. auto. }
+      apply (K1 _ Hin).
+    - intros i Hn. apply K2. intros Hin. apply Hn. apply in_map_iff in Hin. destruct Hin as [[a t] [E1 Hp]]. simpl in E1. subst a.
+      apply Hsub in Hp. destruct Hp as [Hp _]. clear -Hp. revert ts Hp. induction idx as [|a l IH]; intros [|t' ts] Hp; simpl in *; try tauto.
+      destruct Hp as [Hp|Hp]; [inversion Hp; auto|right; eapply IH; eauto].
+  Qed.
+
+  (* Collapse with CollapseAt(target=list): every collapsed in-range index is fixed at ITS OWN entry of the target list,
+     for any subset of indices in any iteration order; everything else is untouched (the real code raises IndexError
+     for an index beyond the target list; the detector only reports indices below len(target) = number of columns) *)
+  Theorem collapse_at_list_exact idx ts (x : list E) :
+    NoDup idx ->
+    exists y, collapse_at_list N idx ts x = Ok y /\ length y = length x /\
+      (forall i, In i idx -> i < length x -> nth i y (zero N) = nth i ts (zero N)) /\
+      (forall i, ~ In i idx -> nth i y (zero N) = nth i x (zero N)).
+  Proof.
+    intros ND. unfold collapse_at_list.
+    destruct (impose_at_list_exact idx (select_targets N idx ts) x (zero N) ND) as [y [E [L [K1 K2]]]].
+    assert (Hl : length (select_targets N idx ts) = length idx) by (unfold select_targets; apply map_length).
+    exists y. split; auto. split; auto. split.
+    - intros i Hi Hlt. destruct (In_nth idx i 0 Hi) as [k [Hk Ek]].
+      specialize (K1 k Hk). rewrite Hl in K1. specialize (K1 Hk). rewrite Ek in K1. rewrite (K1 Hlt).
+      unfold select_targets.
+      rewrite (nth_indep (map (fun i0 => nth i0 ts (zero N)) idx) (zero N) ((fun i0 => nth i0 ts (zero N)) 0))
+        by (rewrite map_length; exact Hk).
+      rewrite (map_nth (fun i0 => nth i0 ts (zero N)) idx 0 k). rewrite Ek. reflexivity.
+    - intros i Hn. apply K2. rewrite Hl. rewrite firstn_all. exact Hn.
   Qed.
 
   (* ---- impose_as: copy_to frame facts, and the exact relation when the groups do not interfere *)
@@ -814,87 +846,252 @@ Section ImposeFacts.
     - apply (IH (NoDup_app_r' _ _ ND) Hg Hg2 Hin).
   Qed.
 
-  (* tools.connected: every pair ends up inside one group (but groups are never merged) *)
+  (* ---- tools.connected (repaired: bridging pairs merge their groups) *)
+  Definition allm (gs : list (nat * list nat)) : list nat := flat_map members gs.
+  Definition keys (gs : list (nat * list nat)) : list nat := map fst gs.
+
+  Lemma in_group_iff i g : in_group i g = true <-> In i (members g).
+  Proof.
+    unfold in_group, members. rewrite orb_true_iff, Nat.eqb_eq, memb_In. simpl. intuition.
+  Qed.
+  Lemma keys_incl gs k : In k (keys gs) -> In k (allm gs).
+  Proof.
+    unfold keys, allm. intros H. apply in_map_iff in H. destruct H as [g [<- Hg]].
+    apply in_flat_map. exists g. split; auto. left; auto.
+  Qed.
+  Lemma keys_NoDup gs : NoDup (allm gs) -> NoDup (keys gs).
+  Proof.
+    induction gs as [|g gs IH]; simpl; [constructor|]. intros ND. constructor.
+    - intros Hk. apply keys_incl in Hk.
+      change (NoDup (members g ++ allm gs)) in ND. apply (NoDup_app_disj _ _ (fst g) ND); [left; auto|exact Hk].
+    - apply IH. change (NoDup (members g ++ allm gs)) in ND. eapply NoDup_app_r'; eauto.
+  Qed.
+  Lemma key_of_Some i gs k : key_of i gs = Some k -> exists g, In g gs /\ fst g = k /\ In i (members g).
+  Proof.
+    unfold key_of. destruct (find (in_group i) gs) as [g|] eqn:F; [|discriminate].
+    intros H; inversion H; subst. apply find_some in F. destruct F as [A B]. exists g. split; auto. split; auto.
+    apply in_group_iff; auto.
+  Qed.
+  Lemma key_of_None i gs : key_of i gs = None -> ~ In i (allm gs).
+  Proof.
+    unfold key_of. destruct (find (in_group i) gs) as [g|] eqn:F; [discriminate|]. intros _ Hin.
+    apply in_flat_map in Hin. destruct Hin as [g [Hg Hi]].
+    pose proof (find_none _ _ F g Hg) as Q. apply in_group_iff in Hi. congruence.
+  Qed.
+  Lemma same_key_same_group gs g1 g2 : NoDup (keys gs) -> In g1 gs -> In g2 gs -> fst g1 = fst g2 -> g1 = g2.
+  Proof.
+    induction gs as [|g gs IH]; intros ND H1 H2 E; [destruct H1|]. simpl in ND. inversion ND; subst.
+    destruct H1 as [->|H1]; destruct H2 as [->|H2]; auto.
+    - exfalso. apply H3. rewrite E. apply in_map; auto.
+    - exfalso. apply H3. rewrite <- E. apply in_map; auto.
+  Qed.
+  Lemma followers_of gs g : NoDup (keys gs) -> In g gs -> followers (fst g) gs = snd g.
+  Proof.
+    intros ND Hg. unfold followers. destruct (find (fun h => Nat.eqb (fst h) (fst g)) gs) as [h|] eqn:F.
+    - apply find_some in F. destruct F as [Hh E]. apply Nat.eqb_eq in E.
+      rewrite (same_key_same_group gs h g ND Hh Hg E). reflexivity.
+    - pose proof (find_none _ _ F g Hg) as Q. simpl in Q. rewrite Nat.eqb_refl in Q. discriminate.
+  Qed.
+  Lemma add_members_notin k l gs : ~ In k (keys gs) -> add_members k l gs = gs.
+  Proof.
+    induction gs as [|g gs IH]; simpl; auto. intros H.
+    destruct (Nat.eqb (fst g) k) eqn:E; [apply Nat.eqb_eq in E; tauto|]. f_equal. apply IH. tauto.
+  Qed.
+  Lemma remove_key_notin k gs : ~ In k (keys gs) -> remove_key k gs = gs.
+  Proof.
+    induction gs as [|g gs IH]; simpl; auto. intros H.
+    destruct (Nat.eqb (fst g) k) eqn:E; [apply Nat.eqb_eq in E; tauto|]. simpl. f_equal. apply IH. tauto.
+  Qed.
+  Lemma keys_add_members k l gs : keys (add_members k l gs) = keys gs.
+  Proof. unfold keys, add_members. rewrite map_map. apply map_ext. intros g. destruct (Nat.eqb (fst g) k); auto. Qed.
+
+  Lemma add_members_perm gs : forall k l, NoDup (keys gs) -> In k (keys gs) ->
+    Permutation (allm (add_members k l gs)) (l ++ allm gs).
+  Proof.
+    induction gs as [|g gs IH]; intros k l ND Hk; [destruct Hk|]. simpl in ND. inversion ND; subst.
+    unfold add_members. cbn [map]. fold (add_members k l gs). destruct (Nat.eqb (fst g) k) eqn:E.
+    - apply Nat.eqb_eq in E. subst k. rewrite add_members_notin by auto.
+      change (Permutation ((fst g :: snd g ++ l) ++ allm gs) (l ++ (fst g :: snd g) ++ allm gs)).
+      simpl. rewrite <- app_assoc. apply Permutation_sym.
+      etransitivity; [apply (Permutation_app_comm l (fst g :: snd g ++ allm gs))|].
+      simpl. apply perm_skip. rewrite <- app_assoc. apply Permutation_app_head. apply Permutation_app_comm.
+    - destruct Hk as [Hk|Hk]; [apply Nat.eqb_neq in E; congruence|].
+      change (Permutation (members g ++ allm (add_members k l gs)) (l ++ members g ++ allm gs)).
+      etransitivity; [apply Permutation_app_head; apply IH; auto|].
+      apply Permutation_app_swap_app.
+  Qed.
+  Lemma remove_key_perm gs : forall k, NoDup (keys gs) -> In k (keys gs) ->
+    Permutation (allm gs) ((k :: followers k gs) ++ allm (remove_key k gs)).
+  Proof.
+    induction gs as [|g gs IH]; intros k ND Hk; [destruct Hk|]. simpl in ND. inversion ND; subst.
+    unfold followers, remove_key. cbn [find filter]. fold (remove_key k gs).
+    destruct (Nat.eqb (fst g) k) eqn:E; cbn [negb].
+    - apply Nat.eqb_eq in E. subst k. rewrite remove_key_notin by auto. apply Permutation_refl.
+    - destruct Hk as [Hk|Hk]; [apply Nat.eqb_neq in E; congruence|].
+      fold (followers k gs).
+      change (Permutation (members g ++ allm gs) ((k :: followers k gs) ++ members g ++ allm (remove_key k gs))).
+      etransitivity; [apply Permutation_app_head; apply (IH k); auto|].
+      apply (Permutation_app_swap_app (members g) (k :: followers k gs) (allm (remove_key k gs))).
+  Qed.
+
   Definition covered (gs : list (nat * list nat)) (p : nat * nat) : Prop :=
-    exists g, In g gs /\ in_group (fst p) g = true /\ in_group (snd p) g = true.
-  Lemma in_group_add_to i j g : in_group i g = true -> in_group i (add_to j g) = true.
+    exists g, In g gs /\ In (fst p) (members g) /\ In (snd p) (members g).
+
+  Lemma covered_add_members k l gs p : covered gs p -> covered (add_members k l gs) p.
   Proof.
-    unfold in_group, add_to. destruct (memb j (snd g)); auto. simpl. rewrite !orb_true_iff, !memb_In, in_app_iff. tauto.
+    intros [g [Hg [A B]]]. exists (if Nat.eqb (fst g) k then (fst g, snd g ++ l) else g). split.
+    - unfold add_members. apply in_map_iff. exists g. auto.
+    - destruct (Nat.eqb (fst g) k); auto. unfold members in *. simpl in *. rewrite !in_app_iff. tauto.
   Qed.
-  Lemma in_group_add_to_self j g : in_group j (add_to j g) = true.
+  Lemma in_add_members k l gs g : In g gs -> fst g = k -> In (k, snd g ++ l) (add_members k l gs).
   Proof.
-    unfold in_group, add_to. destruct (memb j (snd g)) eqn:M; [rewrite M; apply orb_true_r|].
-    simpl. rewrite orb_true_iff, memb_In, in_app_iff. simpl. auto.
+    intros Hg E. unfold add_members. apply in_map_iff. exists g. split; auto.
+    apply Nat.eqb_eq in E as E'. rewrite E'. subst k. reflexivity.
   Qed.
-  Lemma place_covers i j : forall gs gs', place i j gs = Some gs' ->
-    covered gs' (i, j) /\ forall p, covered gs p -> covered gs' p.
+
+  (* invariant of the fold: groups pairwise disjoint, every processed pair inside one group, members come from pairs *)
+  Definition conn_inv (gs : list (nat * list nat)) (done : list (nat * nat)) : Prop :=
+    NoDup (allm gs) /\
+    (forall p, In p done -> fst p <> snd p -> covered gs p) /\
+    (forall x, In x (allm gs) -> exists p, In p done /\ (x = fst p \/ x = snd p)).
+
+  Lemma connect_step_inv gs done p : conn_inv gs done -> conn_inv (connect_step gs p) (done ++ [p]).
   Proof.
-    induction gs as [|g gs IH]; intros gs' H; simpl in H; [discriminate|].
-    destruct (in_group i g) eqn:Gi.
-    - inversion H; subst. split.
-      + exists (add_to j g). split; [left; auto|]. simpl. split; [apply in_group_add_to; auto | apply in_group_add_to_self].
-      + intros p [g0 [[Eg|Hg] [A B]]]; [subst g0; exists (add_to j g) | exists g0].
-        * split; [left; auto|]. split; apply in_group_add_to; auto.
-        * split; [right; auto|auto].
-    - destruct (in_group j g) eqn:Gj.
-      + inversion H; subst. split.
-        * exists (add_to i g). split; [left; auto|]. simpl. split; [apply in_group_add_to_self | apply in_group_add_to; auto].
-        * intros p [g0 [[Eg|Hg] [A B]]]; [subst g0; exists (add_to i g) | exists g0].
-          -- split; [left; auto|]. split; apply in_group_add_to; auto.
-          -- split; [right; auto|auto].
-      + destruct (place i j gs) as [r'|] eqn:P; [|discriminate]. inversion H; subst.
-        destruct (IH r' eq_refl) as [C1 C2]. split.
-        * destruct C1 as [g0 [Hg AB]]. exists g0. split; [right; auto|auto].
-        * intros p [g0 [[Eg|Hg] AB]]; [subst g0; exists g; split; [left; auto|auto]|].
-          destruct (C2 p) as [g1 [Hg1 AB1]]; [exists g0; auto|]. exists g1. split; [right; auto|auto].
+    intros [ND [CV SRC]]. destruct p as [i j]. unfold connect_step. simpl.
+    assert (SRC' : forall gs', (forall x, In x (allm gs') -> In x (allm gs) \/ x = i \/ x = j) ->
+                   forall x, In x (allm gs') -> exists q, In q (done ++ [(i, j)]) /\ (x = fst q \/ x = snd q)).
+    { intros gs' H x Hx. destruct (H x Hx) as [Hx'|[->| ->]].
+      - destruct (SRC x Hx') as [q [Hq E]]. exists q. split; auto. apply in_or_app; auto.
+      - exists (i, j). split; [apply in_or_app; right; left; auto | left; auto].
+      - exists (i, j). split; [apply in_or_app; right; left; auto | right; auto]. }
+    assert (CV' : forall gs', (forall q, covered gs q -> covered gs' q) -> (i <> j -> covered gs' (i, j)) ->
+                  forall q, In q (done ++ [(i, j)]) -> fst q <> snd q -> covered gs' q).
+    { intros gs' H1 H2 q Hq Hne. apply in_app_or in Hq. destruct Hq as [Hq|[<-|[]]]; auto. }
+    pose proof (keys_NoDup gs ND) as NDk.
+    destruct (Nat.eqb i j) eqn:Eij.
+    - apply Nat.eqb_eq in Eij. subst j. split; auto. split.
+      + apply CV'; auto. intros H; congruence.
+      + apply SRC'. auto.
+    - apply Nat.eqb_neq in Eij.
+      destruct (key_of i gs) as [ki|] eqn:Ki; destruct (key_of j gs) as [kj|] eqn:Kj.
+      + (* both in a group *)
+        destruct (key_of_Some _ _ _ Ki) as [gi [Hgi [Egi Hi]]]. destruct (key_of_Some _ _ _ Kj) as [gj [Hgj [Egj Hj]]].
+        destruct (Nat.eqb ki kj) eqn:Ek.
+        * apply Nat.eqb_eq in Ek. subst kj. split; auto. split; [|apply SRC'; auto].
+          apply CV'; auto. intros _. exists gi. split; auto. split; auto.
+          assert (gi = gj) by (apply (same_key_same_group gs); auto; congruence). subst gj. auto.
+        * apply Nat.eqb_neq in Ek.
+          assert (Hkj : In kj (keys gs)) by (subst kj; apply in_map; auto).
+          assert (Hki : In ki (keys gs)) by (subst ki; apply in_map; auto).
+          pose proof (remove_key_perm gs kj NDk Hkj) as P1.
+          assert (ND1 : NoDup ((kj :: followers kj gs) ++ allm (remove_key kj gs))) by (eapply Permutation_NoDup; eauto).
+          assert (NDr : NoDup (allm (remove_key kj gs))) by (eapply NoDup_app_r'; eauto).
+          assert (Hki' : In ki (keys (remove_key kj gs))).
+          { unfold keys, remove_key. apply in_map_iff. exists gi. split; auto. apply filter_In. split; auto.
+            apply negb_true_iff. apply Nat.eqb_neq. congruence. }
+          pose proof (add_members_perm (remove_key kj gs) ki (followers kj gs ++ [kj]) (keys_NoDup _ NDr) Hki') as P2.
+          assert (P3 : Permutation (allm (add_members ki (followers kj gs ++ [kj]) (remove_key kj gs))) (allm gs)).
+          { etransitivity; [exact P2|]. apply Permutation_sym. etransitivity; [exact P1|].
+            apply Permutation_app_tail. simpl. apply Permutation_cons_append. }
+          split; [eapply Permutation_NoDup; [apply Permutation_sym; exact P3|exact ND]|]. split.
+          -- apply CV'.
+             ++ intros q [g [Hg [A B]]]. destruct (Nat.eq_dec (fst g) kj) as [Eg|Eg].
+                ** (* the popped group: its members are now members of group ki *)
+                   exists (ki, snd gi ++ followers kj gs ++ [kj]). split.
+                   --- apply in_add_members; auto. apply filter_In. split; auto.
+                       apply negb_true_iff. apply Nat.eqb_neq. congruence.
+                   --- assert (Hsub : forall x, In x (members g) -> In x (members (ki, snd gi ++ followers kj gs ++ [kj]))).
+                       { intros x Hx. unfold members in *. simpl. right. rewrite !in_app_iff.
+                         destruct Hx as [Hx|Hx]; [right; right; left; congruence|].
+                         right. left. rewrite <- Eg. rewrite (followers_of gs g NDk Hg). exact Hx. }
+                       split; apply Hsub; auto.
+                ** apply covered_add_members. exists g. split; [|auto]. apply filter_In. split; auto.
+                   apply negb_true_iff. apply Nat.eqb_neq. exact Eg.
+             ++ intros _. exists (ki, snd gi ++ followers kj gs ++ [kj]). split.
+                ** apply in_add_members; auto. apply filter_In. split; auto.
+                   apply negb_true_iff. apply Nat.eqb_neq. congruence.
+                ** unfold members in *. simpl in *. split.
+                   --- destruct Hi as [Hi|Hi]; [left; congruence|right; apply in_or_app; auto].
+                   --- right. rewrite !in_app_iff. destruct Hj as [Hj|Hj]; [right; right; left; congruence|].
+                       right. left. rewrite <- Egj. rewrite (followers_of gs gj NDk Hgj). exact Hj.
+          -- apply SRC'. intros x Hx. left. eapply Permutation_in; [exact P3|exact Hx].
+      + (* i in group ki, j new *)
+        destruct (key_of_Some _ _ _ Ki) as [gi [Hgi [Egi Hi]]]. pose proof (key_of_None _ _ Kj) as Hj.
+        assert (Hki : In ki (keys gs)) by (subst ki; apply in_map; auto).
+        pose proof (add_members_perm gs ki [j] NDk Hki) as P. simpl in P.
+        split; [eapply Permutation_NoDup; [apply Permutation_sym; exact P|constructor; auto]|]. split.
+        * apply CV'; [apply covered_add_members|]. intros _. exists (ki, snd gi ++ [j]). split; [apply in_add_members; auto|].
+          unfold members in *. simpl in *. split.
+          -- destruct Hi as [Hi|Hi]; [left; congruence|right; apply in_or_app; auto].
+          -- right. apply in_or_app. right. left. auto.
+        * apply SRC'. intros x Hx. pose proof (Permutation_in _ P Hx) as Q. destruct Q as [<-|Q]; auto.
+      + (* j in group kj, i new *)
+        destruct (key_of_Some _ _ _ Kj) as [gj [Hgj [Egj Hj]]]. pose proof (key_of_None _ _ Ki) as Hi.
+        assert (Hkj : In kj (keys gs)) by (subst kj; apply in_map; auto).
+        pose proof (add_members_perm gs kj [i] NDk Hkj) as P. simpl in P.
+        split; [eapply Permutation_NoDup; [apply Permutation_sym; exact P|constructor; auto]|]. split.
+        * apply CV'; [apply covered_add_members|]. intros _. exists (kj, snd gj ++ [i]). split; [apply in_add_members; auto|].
+          unfold members in *. simpl in *. split.
+          -- right. apply in_or_app. right. left. auto.
+          -- destruct Hj as [Hj|Hj]; [left; congruence|right; apply in_or_app; auto].
+        * apply SRC'. intros x Hx. pose proof (Permutation_in _ P Hx) as Q. destruct Q as [<-|Q]; auto.
+      + (* a new group *)
+        pose proof (key_of_None _ _ Ki) as Hi. pose proof (key_of_None _ _ Kj) as Hj.
+        assert (E : allm (gs ++ [(i, [j])]) = allm gs ++ [i; j]) by (unfold allm; rewrite flat_map_app; reflexivity).
+        split.
+        * rewrite E. eapply Permutation_NoDup; [apply Permutation_app_comm|]. simpl. constructor.
+          -- intros [H|H]; [congruence|tauto].
+          -- constructor; auto.
+        * split.
+          -- apply CV'.
+             ++ intros q [g [Hg AB]]. exists g. split; auto. apply in_or_app; auto.
+             ++ intros _. exists (i, [j]). split; [apply in_or_app; right; left; auto|]. unfold members; simpl. auto.
+          -- apply SRC'. intros x Hx. rewrite E in Hx. apply in_app_or in Hx. simpl in Hx.
+             destruct Hx as [Hx|[<-|[<-|[]]]]; auto.
   Qed.
-  Lemma connected_covers pairs : forall p, In p pairs -> covered (connected pairs) p.
+
+  Lemma connected_inv pairs : conn_inv (connected pairs) pairs.
   Proof.
     unfold connected.
-    assert (G : forall l gs p, (covered gs p \/ In p l) ->
-              covered (fold_left (fun gs p => match place (fst p) (snd p) gs with Some gs' => gs' | None => gs ++ [(fst p, [snd p])] end) l gs) p).
-    { induction l as [|q l IH]; intros gs p [H|H]; simpl; auto; [destruct H| |].
-      - apply IH. left. destruct (place (fst q) (snd q) gs) as [gs'|] eqn:P.
-        + apply (proj2 (place_covers _ _ _ _ P)); auto.
-        + destruct H as [g [Hg AB]]. exists g. split; auto. apply in_or_app; auto.
-      - destruct H as [<-|H]; [|apply IH; auto]. apply IH. left.
-        destruct (place (fst q) (snd q) gs) as [gs'|] eqn:P.
-        + destruct q as [a b]. apply (proj1 (place_covers _ _ _ _ P)).
-        + exists (fst q, [snd q]). split; [apply in_or_app; right; left; auto|].
-          unfold in_group; simpl. rewrite !Nat.eqb_refl. simpl. split; auto. apply orb_true_r. }
-    intros p Hp. apply G. auto.
+    assert (G : forall l gs done, conn_inv gs done -> conn_inv (fold_left connect_step l gs) (done ++ l)).
+    { induction l as [|p l IH]; intros gs done H; simpl; [rewrite app_nil_r; auto|].
+      replace (done ++ p :: l) with ((done ++ [p]) ++ l) by (rewrite <- app_assoc; reflexivity).
+      apply IH. apply connect_step_inv. auto. }
+    apply (G pairs [] []). split; [constructor|]. split; [intros p []|intros x []].
   Qed.
 
   Lemma nodup_length_le (l : list nat) : length (nodup Nat.eq_dec l) <= length l.
   Proof. induction l as [|a l IH]; simpl; auto. destruct (in_dec Nat.eq_dec a l); simpl; lia. Qed.
-  Lemma nodup_same_length (l : list nat) : length (nodup Nat.eq_dec l) = length l -> NoDup l.
+  Lemma NoDup_nodup_length (l : list nat) : NoDup l -> length (nodup Nat.eq_dec l) = length l.
+  Proof. intros H. rewrite nodup_fixed_point; auto. Qed.
+
+  (* the groups of tools.connected are ALWAYS pairwise disjoint (repaired behaviour) *)
+  Theorem connected_groups_disjoint pairs : groups_disjoint (connected pairs) = true.
   Proof.
-    induction l as [|a l IH]; simpl; [constructor|].
-    destruct (in_dec Nat.eq_dec a l) as [I|I]; simpl; intros H.
-    - pose proof (nodup_length_le l). lia.
-    - constructor; auto.
+    unfold groups_disjoint. apply Nat.eqb_eq. apply NoDup_nodup_length. apply (proj1 (connected_inv pairs)).
   Qed.
 
-  (* PARTIAL: the tie stage of impose_as makes x_i = x_j for EVERY pair of the mask provided tools.connected happened to
-     produce pairwise disjoint groups (it does not merge groups; see impose_as_ties_refuted in Properties_C11.v) *)
-  Theorem impose_as_ties_partial pairs (x : list E) :
-    groups_disjoint (connected pairs) = true ->
-    forall i j, In (i, j) pairs -> i < length x -> j < length x ->
-      (forall g, In g (connected pairs) -> fst g < length x) ->
+  (* FULL: the tie stage of impose_as makes x_i = x_j exactly for EVERY pair of the mask, whatever the iteration order of
+     the set and however the pairs chain (all indices in range) *)
+  Theorem impose_as_ties pairs (x : list E) :
+    (forall p, In p pairs -> fst p < length x /\ snd p < length x) ->
+    forall i j, In (i, j) pairs ->
       nth i (apply_groups N (connected pairs) x) (zero N) = nth j (apply_groups N (connected pairs) x) (zero N).
   Proof.
-    intros GD i j Hp Hi Hj Hlead.
-    assert (ND : NoDup (flat_map members (connected pairs))).
-    { unfold groups_disjoint in GD. apply Nat.eqb_eq in GD. apply nodup_same_length. exact GD. }
+    intros Hr i j Hp. destruct (Nat.eq_dec i j) as [->|Hne]; [reflexivity|].
+    destruct (connected_inv pairs) as [ND [CV SRC]].
+    assert (Hall : forall k, In k (allm (connected pairs)) -> k < length x).
+    { intros k Hk. destruct (SRC k Hk) as [q [Hq [->| ->]]]; apply Hr; auto. }
     destruct (apply_groups_disjoint (connected pairs) x ND) as [L [K1 K2]].
-    destruct (connected_covers pairs (i, j) Hp) as [g [Hg [A B]]]. simpl in A, B.
-    assert (V : forall k, k < length x -> in_group k g = true ->
+    destruct (CV (i, j) Hp Hne) as [g [Hg [A B]]]. simpl in A, B.
+    assert (Hlead : fst g < length x) by (apply Hall; apply in_flat_map; exists g; split; auto; left; auto).
+    assert (V : forall k, In k (members g) ->
                 nth k (apply_groups N (connected pairs) x) (zero N) = nth (fst g) x (zero N)).
-    { intros k Hk G. unfold in_group in G. apply orb_true_iff in G. destruct G as [G|G].
-      - apply Nat.eqb_eq in G. subst k. apply K2. intros Hin. apply in_flat_map in Hin. destruct Hin as [g2 [Hg2 Hk2]].
+    { intros k [<-|Hk].
+      - apply K2. intros Hin. apply in_flat_map in Hin. destruct Hin as [g2 [Hg2 Hk2]].
         exact (leader_not_follower _ _ _ ND Hg Hg2 Hk2).
-      - apply memb_In in G. apply K1; auto. }
-    rewrite (V i Hi A), (V j Hj B). reflexivity.
+      - apply K1; auto. apply Hall. apply in_flat_map. exists g. split; auto. right; auto. }
+    rewrite (V i A), (V j B). reflexivity.
   Qed.
 End ImposeFacts.
 
@@ -1089,23 +1286,14 @@ End LoopFacts.
 From Coq Require Import QArith.
 Open Scope Q_scope.
 
-(* tools.connected does not merge groups: impose_as({(0,1),(2,4),(0,4)}) leaves x0 <> x4 *)
-Lemma impose_as_ties_witness :
+(* regression witness of the repaired tools.connected: the bridging pair (0,4) merges the groups of (0,1) and (2,4) *)
+Lemma impose_as_merge_witness :
   let pairs := [(0, 1); (2, 4); (0, 4)]%nat in
   let x := [10; 20; 30; 40; 50] : list Q in
-  impose_as NumQ pairs 0 x = Some [10 + 0; 10 + 0 + 0; 30; 40; 30 + 0 + 0] /\
-  apply_groups NumQ (connected pairs) x = [10; 10; 30; 40; 30] /\
-  groups_disjoint (connected pairs) = false.
+  connected pairs = [(0, [1; 4; 2])]%nat /\
+  apply_groups NumQ (connected pairs) x = [10; 10; 10; 40; 10] /\
+  groups_disjoint (connected pairs) = true.
 Proof. vm_compute. repeat split. Qed.
-Lemma impose_as_ties_refuted_lemma :
-  exists (pairs : list (nat * nat)) (x : list Q) (i j : nat),
-    In (i, j) pairs /\ (i < length x)%nat /\ (j < length x)%nat /\
-    nth i (apply_groups NumQ (connected pairs) x) 0 <> nth j (apply_groups NumQ (connected pairs) x) 0.
-Proof.
-  exists [(0, 1); (2, 4); (0, 4)]%nat, [10; 20; 30; 40; 50], 0%nat, 4%nat.
-  split; [right; right; left; reflexivity|]. split; [simpl; lia|]. split; [simpl; lia|].
-  vm_compute. discriminate.
-Qed.
 
 (* composition: the NEWEST round fixes x1 = 0, an OLDER CollapseAs round (x1 := x0) acts after it and overwrites it *)
 Lemma compose_overwrites_refuted_lemma :
@@ -1119,9 +1307,12 @@ Proof.
   - unfold fixed_at. vm_compute. discriminate.
 Qed.
 
-(* CollapseAt(target=[t0,t1]) collapsing only index 0: Collapse hands impose_at the FULL list -> numpy shape mismatch *)
-Lemma collapse_list_target_witness : impose_at NumQ [0%nat] (@AtList NumQ [1; 2]) [5; 6] = Err ErrValue.
-Proof. reflexivity. Qed.
+(* CollapseAt(target=[t0,t1]) collapsing only index 1 (repaired Collapse, fix 3c01a6d): x1 is fixed at its own target t1 = 2;
+   the pre-repair call impose_at({1}, [t0,t1]) paired positionally and fixed x1 at t0 = 1 *)
+Lemma collapse_list_target_witness :
+  collapse_at_list NumQ [1%nat] [1; 2] [5; 6] = Ok [5; 2] /\
+  impose_at NumQ [1%nat] (@AtList NumQ [1; 2]) [5; 6] = Ok [5; 1].
+Proof. split; reflexivity. Qed.
 
 (* CollapseAs(offset=True) imposes x_j = x_i + True, not the offset that was observed (here 3) *)
 Lemma offset_true_witness : impose_as NumQ [(0, 1)%nat] 1 [5; 8] = Some [5; 5 + 1].
